@@ -63,7 +63,7 @@ func init() {
 			"shared nodes carry reflection-populated attributes, each field independently empty or not). Monitored: Union(A,B) and Add against the set model (ids, roots, edge triples restricted to present nodes), " +
 			"idempotence, commutativity, identity, associativity (where the model itself is associative, i.e. always for well-formed operands), attribute precedence per schema field for every shared node " +
 			"(Union: argument wins when non-empty; Add: receiver wins when non-empty). distinct = hash of canonical (A,B); non-trivial = A and B share at least one node or both have edges.",
-		Assumptions: []string{"node ids are unique within one operand", "list-valued attributes are compared as multisets", "id and type are excluded from the precedence rule (pinned by TestUpdate/TestAugment)"},
+		Assumptions: []string{"node ids are unique within one operand", "list-valued attributes are compared as multisets", "the node kind is judged only where the statement's rule and the behaviour pinned by TestUpdate/TestAugment (the node already in the list keeps its kind) coincide"},
 		NCases: func(tier string) int {
 			if tier == "thorough" {
 				return 1000000
@@ -121,6 +121,10 @@ func c09Case(c *core.C) {
 			c.Violatef("union-attr-"+f, det, "Union: shared node %s: %s", id, why)
 			return
 		}
+		if why := kindCheck(nodeByID(U, id), nodeByID(b0, id), nodeByID(a0, id), nodeByID(a0, id)); why != "" {
+			c.Violatef("union-attr-type", det, "Union: shared node %s: %s", id, why)
+			return
+		}
 	}
 	// nodes only in one operand keep their attributes
 	for _, n := range U.Nodes {
@@ -133,6 +137,10 @@ func c09Case(c *core.C) {
 		}
 		if f, why := precedenceCheck(n, src, src); why != "" {
 			c.Violatef("union-unshared-attr-"+f, det, "Union: node %s present in one operand changed: %s", n.Id, why)
+			return
+		}
+		if n.Type != src.Type {
+			c.Violatef("union-unshared-attr-type", det, "Union: node %s present in one operand changed its kind from %s to %s", n.Id, src.Type, n.Type)
 			return
 		}
 	}
@@ -198,6 +206,10 @@ func c09Case(c *core.C) {
 		c.Evals(1)
 		if f, why := precedenceCheck(nodeByID(recv, id), nodeByID(a0, id), nodeByID(b0, id)); why != "" {
 			c.Violatef("add-attr-"+f, det, "Add: shared node %s: %s", id, why)
+			return
+		}
+		if why := kindCheck(nodeByID(recv, id), nodeByID(a0, id), nodeByID(b0, id), nodeByID(a0, id)); why != "" {
+			c.Violatef("add-attr-type", det, "Add: shared node %s: %s", id, why)
 			return
 		}
 	}
